@@ -45,7 +45,9 @@ Mantissas == {<<49>>, <<48>>, <<49, 50, 51>>, <<57, 48, 48, 55, 49, 57, 57, 50, 
               <<49, 55, 57, 55, 54, 57, 51, 49, 51, 52, 56, 54, 50, 51, 49, 53, 57>>,                                 \* ...159
               <<50, 50, 50, 53, 48, 55, 51, 56, 53, 56, 53, 48, 55, 50, 48, 49, 52>>,                                 \* 22250738585072014
               <<52, 57, 52, 48, 54, 53, 54, 52, 53, 56, 52, 49, 50, 52, 54, 53, 52>>}                                 \* 49406564584124654
-Fractions == {<<>>, <<DOT, 53>>, <<DOT, 48>>, <<DOT, 48, 48, 49>>, <<DOT, 50, 53, 48, 48>>}
+\* the last two: more leading fraction zeros than the significand has decimal places (19 / 30 zeros before the first digit)
+Fractions == {<<>>, <<DOT, 53>>, <<DOT, 48>>, <<DOT, 48, 48, 49>>, <<DOT, 50, 53, 48, 48>>,
+              <<DOT>> \o [i \in 1..19 |-> 48] \o <<49>>, <<DOT>> \o [i \in 1..30 |-> 48] \o <<55, 53>>}
 ExpVals == IF Deep THEN {0, 1, 15, 22, 23, 37, 291, 292, 293, 300, 307, 308, 309, 323, 324, 325, 400, 99999, 1000000007}
            ELSE {0, 1, 22, 23, 292, 308, 309, 324, 400, 99999}
 RECURSIVE NatText(_)
